@@ -20,7 +20,7 @@ REASONS = {111: "failure-not-reported-to-master-with-original-identity", 112: "c
            113: "run-did-not-return", 114: "master-continued-ticking-after-failure", 115: "stop-set-differs-from-model"}
 
 
-def run_failing(cfg, devs, device, n, t_end=2_000_000_003):
+def run_failing(cfg, devs, device, n, t_end=2_000_000_003, kind="device"):
     import tickit.core.management.schedulers.master as mm
     import tickit.core.management.ticker as tk
     from tickit.core.adapter import AdapterContainer
@@ -38,6 +38,16 @@ def run_failing(cfg, devs, device, n, t_end=2_000_000_003):
         def after_update(self):
             pass
 
+    class FailingAdapter:
+        """raises in its after_update hook at the n-th update of its device"""
+        def __init__(self):
+            self.k = 0
+
+        def after_update(self):
+            self.k += 1
+            if self.k == n:
+                raise RuntimeError(f"device c{device} fails (adapter hook) at update {n}")
+
     class BlockingIo:
         async def setup(self, adapter, raise_interrupt):
             await asyncio.Event().wait()     # serve forever (until cancelled)
@@ -45,9 +55,15 @@ def run_failing(cfg, devs, device, n, t_end=2_000_000_003):
     def adapters():
         return [AdapterContainer(BlockingAdapter(), BlockingIo())]
 
+    def failing_adapters():
+        return [AdapterContainer(BlockingAdapter(), BlockingIo()), AdapterContainer(FailingAdapter(), BlockingIo())]
+
     async def main(loop):
         import tickit.core.components.component as cc
-        configs = slevel.build_configs(cfg, devs, 1, {device: n}, {d: adapters for d in slevel.devices_of(cfg)})
+        ad = {d: adapters for d in slevel.devices_of(cfg)}
+        if kind == "hook":
+            ad[device] = failing_adapters
+        configs = slevel.build_configs(cfg, devs, 1, {device: n} if kind == "device" else {}, ad)
         sched = mm.MasterScheduler(InverseWiring.from_component_configs(configs), *slevel_get_interface())
         comps = {c.name: c() for c in configs}
         # observe stop_component of every component class and the master's exception handler
@@ -147,16 +163,17 @@ def main(tier, seed):
     for cfg, devs in configs(tier, rng):
         for d in slevel.devices_of(cfg):
             for n in range(1, nmax + 1):
-                obs = run_failing(cfg, devs, d, n)
-                if obs["n_updates_of_device"] < n:
-                    continue    # the device is not updated that often in this run: no failure happened
-                cases.append(dict(cfg=cfg, devs=devs, device=d, n=n, obs=obs))
-                terms.append(render(cfg, d, obs))
+                for kind in ("device", "hook"):
+                    obs = run_failing(cfg, devs, d, n, kind=kind)
+                    if obs["n_updates_of_device"] < n:
+                        continue    # the device is not updated that often in this run: no failure happened
+                    cases.append(dict(cfg=cfg, devs=devs, device=d, n=n, kind=kind, obs=obs))
+                    terms.append(render(cfg, d, obs))
     bad = run_shards(PID, HEADER, "fs_case", "check_fs", terms, shard_size=60)
     for c in cases:
-        ck.count(json.dumps([sprops.describe(dict(c, speed=(1, 1), initial=0, stim=[])), c["device"], c["n"]]),
+        ck.count(json.dumps([sprops.describe(dict(c, speed=(1, 1), initial=0, stim=[])), c["device"], c["n"], c["kind"]]),
                  len(slevel.path_of(c["cfg"], c["device"])[1]) >= 1 or c["n"] >= 2)
-    ck.rule = ("every (device, n-th update) failure point with n <= %d on flat / nested / doubly nested configurations with sibling "
+    ck.rule = ("every (device, n-th update) failure point -- in the device's update and in an adapter's after_update hook -- with n <= %d on flat / nested / doubly nested configurations with sibling "
                "systems and on random nested configurations, run through TickitSimulation.run(); every device carries a blocking "
                "adapter task; non-trivial = failure inside a system simulation or after the initial tick" % nmax)
     ck.coverage.update(failure_points=len(cases), disagreements=len(bad),
@@ -172,9 +189,9 @@ def main(tier, seed):
                 continue
             done.add((code, nested))
             d = sprops.describe(dict(c, speed=(1, 1), initial=0, stim=[]))
-            d.update(device=c["device"], n=c["n"], observed=c["obs"], codes=bad[i])
+            d.update(device=c["device"], n=c["n"], fail_kind=c["kind"], observed=c["obs"], codes=bad[i])
             ck.report(REASONS[code] + ("-failure-inside-system" if nested else "-failure-at-top-level"),
-                      f"device c{c['device']} fails at its update {c['n']}: {REASONS[code]}", d)
+                      f"device c{c['device']} ({c['kind']}) fails at its update {c['n']}: {REASONS[code]}", d)
     return ck.finish()
 
 
@@ -182,7 +199,7 @@ def replay(rp):
     cfg = {int(k): dict(order=[(c, (k2 if k2 == "dev" else int(k2))) for c, k2 in v["order"]],
                         conns=[tuple(x) for x in v["conns"]]) for k, v in rp["cfg"].items()}
     devs = {int(k): tuple(v) for k, v in rp["devs"].items()}
-    obs = run_failing(cfg, devs, rp["device"], rp["n"])
+    obs = run_failing(cfg, devs, rp["device"], rp["n"], kind=rp.get("fail_kind", "device"))
     bad = run_shards("replay", HEADER, "fs_case", "check_fs", [render(cfg, rp["device"], obs)])
     print("observed:", obs)
     print("codes:", bad.get(0, []), [REASONS[c] for c in bad.get(0, [])])
